@@ -6,11 +6,11 @@
 // option. This file may not be copied, modified, or distributed
 // except according to those terms.
 
-use crate::constants::MAX_FRAME_SIZE;
+use crate::constants::{MAX_FRAME_SIZE, MSG_LEN_SIZE};
 use crate::frame::Frame;
 use crate::serializer::Serializer;
 use crate::Error;
-use bytes::{Buf, BytesMut};
+use bytes::{Buf, BufMut, BytesMut};
 use std::io::Cursor;
 use tokio::io::{AsyncReadExt, AsyncWriteExt};
 use tokio::net::TcpStream;
@@ -72,7 +72,13 @@ impl Connection {
 
             match self.socket.as_mut() {
                 Some(socket) => {
-                    let n = match socket.read_buf(&mut self.buffer).await {
+                    // Peer can't make us buffer more than one frame of maximal size
+                    let room = (MSG_LEN_SIZE + MAX_FRAME_SIZE).saturating_sub(self.buffer.len());
+                    if room == 0 {
+                        return Err(Error::MsgToLarge);
+                    }
+
+                    let n = match socket.read_buf(&mut (&mut self.buffer).limit(room)).await {
                         Err(_) => return Err(Error::CantReadFromSocket),
                         Ok(n) => n,
                     };
